@@ -411,3 +411,107 @@ Proof.
   - unfold hist_step. cbn [fst snd]. destruct st as [f|n|dt|k|hs]; try (apply (held_det o); assumption).
     destruct Hinv as [Hw _ Hl]. now apply cycle_no_gap.
 Qed.
+
+(* ------------------------------------------------------------------ C03: a settled world stays as it is *)
+From KV Require Import Proofs.CoordStable.
+
+Definition mk_tgt (tru : amap truth) (p : ptarget) : tgt :=
+  {| t_hash := pt_hash p; t_series := pt_series p;
+     t_total := if tr_healthy (truth_of tru (pt_hash p)) then tr_total (truth_of tru (pt_hash p)) else 0;
+     t_state := pt_state p |}.
+
+Lemma all_targets_request_of tru body : Permutation (all_targets (request_of tru body)) (rev (map (mk_tgt tru) body)).
+Proof.
+  unfold request_of. rewrite <- fold_left_rev_right. rewrite <- map_rev.
+  induction (rev body) as [|p r IH]; simpl; [reflexivity|].
+  rewrite all_targets_group_add. now constructor.
+Qed.
+
+Lemma reported_world_full tru w f k : (k < length (w_shards w))%nat -> insync (cycle_input tru w f) k = true ->
+  reported (cycle_input tru w f) k = map (fun kv => (fst kv, cstat_of (snd kv))) (sc_status (ws_sc (nth k (w_shards w) dws))).
+Proof.
+  intros Hk Hs. unfold insync, info_at, reported, cache_of in *. rewrite shard_at_world in * by exact Hk.
+  unfold get_info, shard_input in *. cbn [sh_ready sh_status sh_rt1 sh_push_ok sh_rt2] in *.
+  destruct (negb (hit (f_not_ready f) k)); cbn [negb] in *; [|discriminate].
+  destruct (negb (hit (f_unreachable f) k)); [reflexivity|discriminate].
+Qed.
+
+Lemma entry_for_same old t e : afind (t_hash t) old = Some e -> ss_state e = t_state t -> entry_for old t = e.
+Proof.
+  intros Ha Hs. unfold entry_for. rewrite Ha. destruct e as [st hl se to ti wi er]. cbn in *. subst st.
+  f_equal. destruct (t_state t); reflexivity.
+Qed.
+
+(* one shard of a settled world: whatever update it is sent, its status map is what it was *)
+Theorem settled_shard_unchanged o tru w sch k h :
+  wwf w -> settled o (cycle_input tru w no_faults) -> (k < length (w_shards w))%nat ->
+  let out := cycle o (cycle_input tru w no_faults) sch in
+  let s := nth k (w_shards w) dws in
+  afind h (sc_status (ws_sc (after_cycle_shard tru w no_faults k s (nth k (o_posts out) None)))) = afind h (sc_status (ws_sc s)).
+Proof.
+  intros Hw Hset Hk. cbn zeta. set (i := cycle_input tru w no_faults). set (out := cycle o i sch).
+  set (s := nth k (w_shards w) dws).
+  unfold after_cycle_shard. cbn [ws_sc]. destruct (nth k (o_posts out) None) as [body|] eqn:Eb; [|reflexivity].
+  cbn [hit f_unreachable f_post_lost no_faults existsb negb andb].
+  assert (Hwf : wf (ws_sc s)).
+  { unfold wwf in Hw. rewrite Forall_forall in Hw. apply Hw. now apply nth_In. }
+  assert (Hlen : length (i_shards i) = length (w_shards w)) by apply inputs_length.
+  assert (Hsync : insync i k = true).
+  { destruct Hset as [[Hok _ _] _ _ _ _]. assert (Hk' : (k < length (map (fun sh => fst (get_info sh)) (i_shards i)))%nat) by (rewrite map_length; lia).
+    destruct (Hok k Hk') as [H _]. fold i in H. rewrite nth_si_p0 in H by (rewrite Hlen; exact Hk). exact H. }
+  assert (Hrep : reported i k = map (fun kv => (fst kv, cstat_of (snd kv))) (sc_status (ws_sc s))) by now apply reported_world_full.
+  (* the body, as a set of (hash, state), is what the shard reported *)
+  assert (Hint : forall x, In x (map (fun t => (pt_hash t, pt_state t)) body) <->
+                           In x (map (fun kv => (fst kv, c_state (snd kv))) (reported i k))).
+  { intros x. rewrite <- (settled_posts_repeat o i sch k Hset x). unfold intended. rewrite post_at_obs. fold out. rewrite Eb.
+    split; intros H; apply in_map_iff in H; destruct H as [t [Ht Hin]]; apply in_map_iff; exists t; (split; [exact Ht|]);
+      [now apply (proj2 (In_sort_pts _ _)) | now apply (proj1 (In_sort_pts _ _))]. }
+  assert (Hu : body_unique body).
+  { pose proof (model_posts_unique o i sch (nodup_reports_world tru w no_faults Hw)) as Hall. rewrite Forall_forall in Hall.
+    apply (Hall (Some body)); [|reflexivity]. fold out. rewrite <- Eb. apply nth_In.
+    destruct (Nat.lt_ge_cases k (length (o_posts out))) as [Hl|Hl]; [exact Hl|]. rewrite nth_overflow in Eb by exact Hl. discriminate. }
+  pose proof (request_unique tru body Hu) as Hnd.
+  destruct (update_status_spec (sc_status (ws_sc s)) (request_of tru body) Hnd) as [Hkeys Hfind].
+  cbn [fst do_update sc_status].
+  destruct (in_dec N.eq_dec h (hashes (request_of tru body))) as [Hin|Hout].
+  - unfold hashes in Hin. apply in_map_iff in Hin. destruct Hin as [t [Hth Hin]]. subst h.
+    rewrite (Hfind t Hin).
+    assert (Hp : In t (rev (map (mk_tgt tru) body))) by (eapply Permutation_in; [apply all_targets_request_of|exact Hin]).
+    apply in_rev in Hp. apply in_map_iff in Hp. destruct Hp as [p [<- Hpin]]. cbn [mk_tgt t_hash t_state].
+    assert (Hx : In (pt_hash p, pt_state p) (map (fun kv => (fst kv, c_state (snd kv))) (reported i k))).
+    { apply Hint. apply in_map_iff. now exists p. }
+    rewrite Hrep, map_map in Hx. cbn [fst snd] in Hx. apply in_map_iff in Hx. destruct Hx as [[h' e] [Hhe Hine]].
+    cbn [fst snd] in Hhe. injection Hhe as Hh Hst. subst h'.
+    assert (Ha : afind (pt_hash p) (sc_status (ws_sc s)) = Some e).
+    { apply In_afind_nodup; [rewrite (wf_keys _ Hwf); apply (wf_nodup _ Hwf)|exact Hine]. }
+    rewrite Ha. f_equal. apply entry_for_same; [exact Ha|]. cbn [t_state]. exact Hst.
+  - assert (Hn1 : afind h (update_status (sc_status (ws_sc s)) (request_of tru body)) = None).
+    { destruct (afind h (update_status _ _)) eqn:E; [|reflexivity]. exfalso. apply Hout. rewrite <- Hkeys.
+      apply afind_some_keys. eauto. }
+    rewrite Hn1. destruct (afind h (sc_status (ws_sc s))) as [e|] eqn:Ea; [|reflexivity]. exfalso. apply Hout.
+    assert (Hx : In (h, ss_state e) (map (fun t => (pt_hash t, pt_state t)) body)).
+    { apply Hint. rewrite Hrep, map_map. cbn [fst snd]. apply in_map_iff. exists (h, e). split; [reflexivity|now apply afind_In]. }
+    apply in_map_iff in Hx. destruct Hx as [p [Hp Hpin]]. injection Hp as Hph _.
+    eapply Permutation_in; [apply Permutation_sym, hashes_request_of|]. apply -> in_rev. apply in_map_iff. now exists p.
+Qed.
+
+(* the whole world: same number of shards, every sidecar's status map as before - "further cycles then change nothing" *)
+Theorem settled_world_unchanged o tru w sch :
+  wwf w -> settled o (cycle_input tru w no_faults) ->
+  let w' := model_cycle o tru w no_faults sch in
+  length (w_shards w') = length (w_shards w) /\
+  forall k h, (k < length (w_shards w))%nat ->
+    afind h (sc_status (ws_sc (nth k (w_shards w') dws))) = afind h (sc_status (ws_sc (nth k (w_shards w) dws))).
+Proof.
+  intros Hw Hset. cbn zeta. unfold model_cycle.
+  destruct (settled_is_fixpoint o (cycle_input tru w no_faults) sch Hset) as (_ & Hsc & _). cbn zeta in Hsc.
+  rewrite inputs_length in Hsc.
+  unfold apply_cycle. cbn [w_shards]. rewrite Hsc. cbn [last].
+  set (posts := o_posts (cycle o (cycle_input tru w no_faults) sch)).
+  assert (Hz : length (zip_posts tru 0 (w_shards w) posts w no_faults) = length (w_shards w)) by apply zip_length.
+  assert (Hres : rescale (w_now w) (Z.of_nat (length (w_shards w))) (zip_posts tru 0 (w_shards w) posts w no_faults)
+                 = zip_posts tru 0 (w_shards w) posts w no_faults).
+  { unfold rescale. rewrite Nat2Z.id, Hz, Nat.leb_refl. rewrite <- Hz at 1. apply firstn_all. }
+  rewrite Hres. split; [exact Hz|].
+  intros k h Hk. rewrite nth_zip by exact Hk. cbn [Nat.add]. now apply settled_shard_unchanged.
+Qed.
